@@ -121,6 +121,16 @@ func RootArg(t *rapid.T, c core.Ctx, k int, label string) core.Dec {
 			v.SetInt64(0)
 		}
 		d = core.Dec{Coeff: v.String()}
+		// a nearly perfect power: the low digits of r^k dropped (or bumped by one unit of the
+		// kept precision), so that the root lies extremely close to a representable value
+		if Pick(t, 4, label+"nearly") == 0 && len(d.Coeff) > 2 {
+			j := rapid.IntRange(1, len(d.Coeff)-1).Draw(t, label+"dropdigits")
+			q := new(big.Int).Quo(v, ref.Pow10(int64(j)))
+			q.Add(q, big.NewInt(int64(rapid.IntRange(0, 1).Draw(t, label+"bump"))))
+			if q.Sign() > 0 {
+				d = core.Dec{Coeff: q.String(), Exp: int32(j)}
+			}
+		}
 		// root + 1/2 squared style neighbours: (2r+1)^k / 2^k has the root exactly on a tie
 		if Pick(t, 4, label+"tie") == 0 && r.Sign() > 0 {
 			h := new(big.Int).Add(new(big.Int).Mul(r, big.NewInt(10)), big.NewInt(5)) // r.5 scaled by 10
